@@ -555,6 +555,30 @@ def argument_case(ctx, r, cid):
          lambda: ClimateData(obs, g24, time_cycle=12,
                              silence_level=3).anomaly()),
     ]
+    # node lists given as Python lists the caller keeps (e.g. the nodes_1 /
+    # nodes_2 attributes of a coupled network)
+    l1, l2 = [int(v) for v in nodes1], [int(v) for v in nodes2]
+    for mname in ("cross_degree", "cross_local_clustering",
+                  "cross_local_clustering_sparse",
+                  "cross_global_clustering_sparse",
+                  "cross_transitivity_sparse", "cross_adjacency_sparse",
+                  "cross_closeness", "cross_average_path_length",
+                  "cross_betweenness", "nsi_cross_degree",
+                  "nsi_cross_local_clustering", "number_cross_links",
+                  "cross_link_density", "internal_degree",
+                  "internal_closeness"):
+        b1, b2 = list(l1), list(l2)
+        f = getattr(net, mname)
+        with warnings.catch_warnings():
+            warnings.simplefilter("ignore")
+            ctx.call(f, l1) if mname.startswith("internal") \
+                else ctx.call(f, l1, l2)
+        ctx.evals()
+        ctx.count("input_lists_checked")
+        if l1 != b1 or l2 != b2:
+            ctx.violation(f"InteractingNetworks.{mname}:mutates-caller-"
+                          "list", {"now": [l1, l2], "was": [b1, b2]}, cid)
+            l1[:], l2[:] = b1, b2
     # recurrence_plot's rp.supremum_distance_matrix() is a cached array
     cached_D = rp.supremum_distance_matrix()
     cached_D0 = cached_D.copy()
